@@ -1,0 +1,41 @@
+//go:build verif
+
+package trie
+
+// VerifLevel is one level of the builder's level-order vectors, bits expanded. Verification hook only.
+type VerifLevel struct {
+	Labels    []byte
+	HasChild  []bool // per label
+	Louds     []bool // per label: first label of a node
+	HasPrefix []bool // per node
+	Prefixes  [][]byte
+	HasSuffix []bool // per label
+	Suffixes  [][]byte
+	Values    []uint32
+	NodeCount int
+}
+
+// VerifDumpLevels returns what Build put into the builder, level by level.
+func VerifDumpLevels(bd Builder) []VerifLevel {
+	b := bd.(*builder)
+	var out []VerifLevel
+	for _, l := range b.levels {
+		v := VerifLevel{Labels: append([]byte(nil), l.lsLabels...), NodeCount: l.nodeCount, Values: append([]uint32(nil), l.values...)}
+		for i := range l.lsLabels {
+			v.HasChild = append(v.HasChild, readBit(l.lsHasChild, uint32(i)))
+			v.Louds = append(v.Louds, readBit(l.lsLouds, uint32(i)))
+			v.HasSuffix = append(v.HasSuffix, readBit(l.hasSuffix, uint32(i)))
+		}
+		for i := 0; i < l.nodeCount; i++ {
+			v.HasPrefix = append(v.HasPrefix, readBit(l.hasPrefix, uint32(i)))
+		}
+		for _, p := range l.prefixes {
+			v.Prefixes = append(v.Prefixes, append([]byte(nil), p...))
+		}
+		for _, s := range l.suffixes {
+			v.Suffixes = append(v.Suffixes, append([]byte(nil), s...))
+		}
+		out = append(out, v)
+	}
+	return out
+}
